@@ -261,7 +261,8 @@ def monitor (pid : String) (c0 a : List String) : String :=
             ((lines.zip replies).map fun (l, r) => Spec.Mon.probeExpect cfg (tlsMode == "implicit") (SmtpV.Text.toUpper l) r).flatten
           else [])
        | "C19" => Spec.Mon.check19 cfg.maxLine (tag == "TAG=cmdonly" || tag == "TAG=cmdonly-sharedseg") input evs ++ Spec.Mon.check8 evs
-       | "C13" => Spec.Mon.check13 cfg.lmtp cfg.lmtpSess be.data drecs evs
+       | "C13" => Spec.Mon.check13 cfg.lmtp cfg.lmtpSess be.data drecs evs ++
+           (if tag == "TAG=lastfail" then Spec.Mon.checkLastFail evs else [])
        | "C01" => Spec.Mon.checkBait input evs ++ Spec.Mon.checkExpect expect drecs
        | "C05" => Spec.Mon.checkBait input evs ++ Spec.Mon.checkExpect expect drecs
        | "C02" => Spec.Mon.checkBait input evs ++ Spec.Mon.checkResume cfg.lmtp input evs
